@@ -60,7 +60,7 @@ Proof. exact numbers_zero_iff_refuted. Qed.
 Print Assumptions C19_numbers_zero_iff_refuted.
 
 (* every zero distance between different numbers is one of three float events *)
-Theorem C19_numbers_zero_partial : forall a b mx x y v,
+Theorem C19_numbers_zero_causes : forall a b mx x y v,
   pynum_eq a b = false ->
   to_float a = Some x -> to_float b = Some y ->
   numbers_distance a b mx = DVal v -> (v =? 0)%float = true ->
@@ -70,6 +70,17 @@ Theorem C19_numbers_zero_partial : forall a b mx x y v,
    is_inf_sf (FloatOps.Prim2SF d) = true \/
    (sf_is_finite (FloatOps.Prim2SF (x - y)%float) && sf_is_finite (FloatOps.Prim2SF d))%bool = true).
 Proof. exact numbers_zero_causes. Qed.
+Print Assumptions C19_numbers_zero_causes.
+
+(* different numbers have a non-zero distance when the difference is a finite non-zero
+   float, the divisor (num1 + num2) / max_ is finite (no overflow) and the quotient's
+   magnitude is at least 2^(emin+1) (no underflow): zero_guard is computable from the inputs *)
+Theorem C19_numbers_zero_partial : forall a b mx x y v,
+  pynum_eq a b = false ->
+  to_float a = Some x -> to_float b = Some y ->
+  zero_guard x y mx = true ->
+  numbers_distance a b mx = DVal v -> (v =? 0)%float = false.
+Proof. exact numbers_zero_guarded. Qed.
 Print Assumptions C19_numbers_zero_partial.
 
 (** ** rough distance (deep_distance) *)
